@@ -1268,6 +1268,13 @@ func (r *Ref) builtin(n *Node) Val { //nolint:gocyclo // builtins
 			if c, ok := v.(*ctl); ok {
 				v = c.v
 			}
+			// printing costs steps in proportion to what is printed (a loop printing a 20000-node value 100000 times
+			// would otherwise take the reference minutes); the output itself is bounded the same way
+			r.Steps += deepSize(v, 20000) / 2
+			if r.tick() || r.Out.Len() > 64<<20 {
+				r.Exhausted = true
+				return &Err{Msg: ErrBudget}
+			}
 			sb.WriteString(printed(v))
 		}
 		if n.Op == "error" {
